@@ -34,6 +34,19 @@ struct cmb_condition *cmb_condition_create(void)
     return r;
 }
 
+/*
+ * forwarded_signal - A signal forwarded from a resource guard that the condition
+ * observes is a signal on the condition: evaluate all waiting processes.
+ */
+static bool forwarded_signal(struct cmb_resourceguard *rgp)
+{
+    cmb_assert_debug(rgp != NULL);
+
+    struct cmb_condition *cvp = cmi_container_of(rgp, struct cmb_condition, guard);
+
+    return cmb_condition_signal(cvp);
+}
+
 void cmb_condition_initialize(struct cmb_condition *cvp,
                               const char *name)
 {
@@ -42,6 +55,7 @@ void cmb_condition_initialize(struct cmb_condition *cvp,
 
     cmi_resourcebase_initialize((struct cmi_resourcebase *)cvp, name);
     cmb_resourceguard_initialize(&(cvp->guard), (struct cmi_resourcebase *)cvp);
+    cvp->guard.on_signal = forwarded_signal;
 }
 
 void cmb_condition_terminate(struct cmb_condition *cvp)
